@@ -342,6 +342,20 @@ static void trace_sized(rng & r, std::ofstream & out, long n, uint64_t maxext, c
         covfie::field<RS> rs(covfie::make_parameter_pack(std::move(cfg), typename A::configuration_t{prod}));
         covfie::field<BL> f(rs);
         uint64_t size = f.backend().get_backend().get_configuration()[0];
+        {   // the same layer obtained from an RVALUE row-major field (field(field<other> &&)): same storage size, same cells
+            { typename covfie::field<RS>::view_t rv(rs); covfie::array::array<std::size_t, N> c0; for (std::size_t k = 0; k < N; ++k) c0[k] = ext[k] - 1; rv.at(c0)[0] = 42.f; }
+            covfie::field<BL> f1(rs);
+            covfie::field<RS> tmp(rs);
+            covfie::field<BL> g(std::move(tmp));
+            ++g_checks;
+            if ((uint64_t)g.backend().get_backend().get_configuration()[0] != (uint64_t)f1.backend().get_backend().get_configuration()[0])
+                mismatch(std::string("layout/converted-from-rvalue/storage-size/") + L::name, {{"ext", ext}, {"got", (uint64_t)g.backend().get_backend().get_configuration()[0]}, {"want", (uint64_t)f1.backend().get_backend().get_configuration()[0]}});
+            else {
+                typename covfie::field<BL>::view_t v1(f1), v2(g);
+                covfie::array::array<std::size_t, N> c0; for (std::size_t k = 0; k < N; ++k) c0[k] = ext[k] - 1;
+                if (v1.at(c0)[0] != 42.f || v2.at(c0)[0] != 42.f) mismatch(std::string("layout/converted-from-rvalue/value/") + L::name, {{"ext", ext}});
+            }
+        }
         for (int s = 0; s < 6; ++s) {
             std::vector<uint64_t> c(N);
             for (std::size_t k = 0; k < N; ++k) c[k] = (s == 0) ? ext[k] - 1 : r.below(ext[k]);
